@@ -199,7 +199,7 @@ def handleC16 (fields : List String) : Verdict :=
       | some f =>
         let verts := sortStrings (dedupS (es.flatMap (fun e => [e.1, e.2])))
         let k := verts.length
-        if k > 6 then Verdict.badLine "too many vertices for the oracle" else
+        if k > 6 && !(all && k ≤ 13) then Verdict.badLine "too many vertices for the oracle" else
         let idxOf := fun (n : String) => (verts.idxOf? n).getD 0
         let edgesI := es.map (fun e => (idxOf e.1, idxOf e.2))
         -- ids: the real tokenizer's, for names the output mentions; fresh ones otherwise
@@ -213,8 +213,8 @@ def handleC16 (fields : List String) : Verdict :=
         let vid := fun (i : Nat) => idOfName (verts.getD i "")
         let cid := fun (i : Nat) => idOfName (pre ++ verts.getD i "")
         let m := Clique.formula edgesI (List.range k) undirected all vid cid
-        let U := sortNats (dedup ((List.range k).map vid ++ (List.range k).map cid ++ SemExec.allVars f))
-        if U.length > 12 then Verdict.badLine "too many variables" else
+        let U := sortNats (dedup ((List.range k).map vid ++ (if all then [] else (List.range k).map cid) ++ SemExec.allVars f ++ SemExec.allVars m))
+        if U.length > 13 then Verdict.badLine "too many variables" else
         match SemExec.semTT U 4 (modelFuel f) f [], SemExec.semTT U 4 (modelFuel m) m [] with
         | some ttR, some ttM =>
           let modelOk := ttR == ttM
@@ -257,8 +257,8 @@ namespace Rsbdd
 namespace Driver
 open Gen Puzzles
 
-/-- variables of the sudoku formula: `_c_is_d` is sent as `c * 16 + d` -/
-def sudokuVid (c d : Nat) : Nat := c * 16 + d
+/-- variables of the sudoku formula: `_c_is_d` is sent as `c * 1024 + d` -/
+def sudokuVid (c d : Nat) : Nat := c * 1024 + d
 
 /-- the counting constraints and the hint literals of a right-nested conjunction ending in `true` -/
 def holdsConj (board : Nat → Bool) : Nat → Formula → Option Bool
@@ -298,28 +298,32 @@ def handleC17 (fields : List String) : Verdict :=
       | some f =>
         let m := Sudoku.formula r givens sudokuVid
         let modelOk := sameConstraints (4 * (sq * sq * 4 + 100)) m f
-        if !inScope || r > 3 then { modelOk, modelOut := "" } else
+        if !inScope then { modelOk, modelOut := "" } else
         let fuel := 4 * (sq * sq * 4 + 100)
-        let boardOf := fun (g : List Nat) => fun (v : Nat) => g.getD (v / 16) 0 == v % 16
+        -- for the larger roots: the grid `(row mod r) * r + row / r + col (mod r²) + 1`, a valid completed grid of every
+        -- root, when the puzzle has no givens within its first r⁴ symbols
+        let blank := (givens.take (sq * sq)).all (·.isNone)
+        let pattern : List Nat := (List.range (sq * sq)).map (fun c => ((c / sq % r) * r + c / sq / r + c % sq) % sq + 1)
+        let boardOf := fun (g : List Nat) => fun (v : Nat) => g.getD (v / 1024) 0 == v % 1024
         -- oracle (a): every completed grid that keeps the givens satisfies the formula (r ≤ 2: all of them)
-        let sols := if r ≤ 2 then solveSudoku r givens else []
+        let sols := if r ≤ 2 then solveSudoku r givens else if blank then [pattern] else []
         let oa := match sols.find? (fun g => holdsConj (boardOf g) fuel f != some true) with
           | some g => some s!"the completed grid {g} keeps the givens and is valid, but falsifies the emitted formula"
           | none => none
         -- oracle (b): near misses of every solution are rejected: changing one cell to another number
-        let ob := if r > 2 then none else
-          match sols.findSome? (fun g => (List.range (sq * sq)).findSome? (fun c => ((List.range sq).map (· + 1)).findSome? (fun d =>
+        let ob :=
+          match sols.findSome? (fun g => (if r ≤ 2 then List.range (sq * sq) else [0, 9, sq * sq - 1]).findSome? (fun c => ((List.range sq).map (· + 1)).findSome? (fun d =>
               if g.getD c 0 == d then none else
               let g' := g.set c d
               if holdsConj (boardOf g') fuel f == some true then some (g', c) else none))) with
           | some (g', c) => some s!"the grid {g'} (a solution with cell {c} changed) is not valid but satisfies the emitted formula"
           | none => none
         -- oracle (c): a cell with no number / two numbers is rejected
-        let oc := if r > 2 then none else
+        let oc :=
           match sols.head? with
           | some g =>
-            let b0 := fun (v : Nat) => if v / 16 == 0 then false else boardOf g v
-            let b2 := fun (v : Nat) => if v / 16 == 0 && v % 16 ≥ 1 && v % 16 ≤ 2 then true else boardOf g v
+            let b0 := fun (v : Nat) => if v / 1024 == 0 then false else boardOf g v
+            let b2 := fun (v : Nat) => if v / 1024 == 0 && v % 1024 ≥ 1 && v % 1024 ≤ 2 then true else boardOf g v
             if holdsConj b0 fuel f == some true then some "an assignment leaving cell 0 without a number satisfies the formula"
             else if sq ≥ 2 && holdsConj b2 fuel f == some true then some "an assignment giving cell 0 two numbers satisfies the formula"
             else none
@@ -441,7 +445,7 @@ def handleC18 (fields : List String) : Verdict :=
       let isCopy := fun (s : String) => verts.any (fun v => (List.range k).any (fun c => s == showC (v, c)))
       let o := if !(outp.all (fun p => isCopy p.1 && isCopy p.2)) then
           some s!"an end-point of an output edge is not a colour copy <vertex>_c<i>, i < {k}, of an input vertex"
-        else if verts.length > 5 || k > 3 then none
+        else if k ^ verts.length > 4096 then none
         else if colourable != coveringClique then
           some s!"the input graph is {if colourable then "" else "not "}{k}-colourable, but the output graph {if coveringClique then "has" else "has no"} clique covering every input vertex exactly once"
         else none
